@@ -17,8 +17,13 @@ package shard
 //   a read can never return different bytes, and never an object that was not put.
 //
 // Plus: when FlushWriteCache(false) returns nil, every object whose cached put had
-// returned before the flush was called (and that nobody deletes) is in the blobstor tree
-// with identical bytes.
+// returned before the flush was called (and that nobody deletes, or - re-created objects -
+// that no delete overlaps or follows) is in the blobstor tree with identical bytes.
+//
+// Objects are also deleted and put again within one run of the shard: by the deleter, and by
+// a client aligned with the phases of background flush batches (vf16Round.phase), so that
+// an address is removed / re-created while a batch that scheduled it is composed, read,
+// written or cleaned up.
 
 import (
 	"bytes"
@@ -1106,9 +1111,6 @@ func vf16RunRound(r *verifkit.Run, idx int) {
 	r.Count("blobstor_batch_writes", int(x.blob.batches.Load()))
 	r.Count("blobstor_batch_write_objects", int(x.blob.batchObjs.Load()))
 	r.Max("most_batch_writes_in_a_round", x.blob.batches.Load())
-	if os.Getenv("VF16_DEBUG") != "" {
-		fmt.Printf("VF16 round %d workers=%d bc=%d fail=%d phase=%v batches=%d objs=%d\n", idx, workers, bcount, failP, phaseClient, x.blob.batches.Load(), x.blob.batchObjs.Load())
-	}
 	r.Eval(1)
 	r.Distinct(fmt.Sprintf("round|%d|w=%d|thr=%d|bc=%d|max=%d|fail=%d|ops=%d", idx, workers, thr, bcount, maxSize, failP, len(x.ops)))
 	r.Sample(map[string]any{"round": x.desc, "objects": nObj, "segments": segments, "recorded_ops": len(x.ops)})
@@ -1209,7 +1211,7 @@ func vf16RunConstructed(r *verifkit.Run, h *verifkit.Hooks, which string, idx in
 func TestVerif_C16(t *testing.T) {
 	r := verifkit.Start(t, "C16", "exploration")
 	defer r.Finish()
-	r.SetRule("round = one real shard with write-cache (random workers/threshold/batch count/cache size/blobstor failure rate) driven by concurrent putters, readers (4 read APIs), a deleter, explicit flushes, mode switches RW<->RO/degraded-RO, blobstor fault windows, 2-3 restarts; distinct = round with its recorded history; non-trivial = reads overlapping background flushes (cache hits and fall-backs both observed)")
+	r.SetRule("round = one real shard with write-cache (random workers/threshold/batch count/cache size/blobstor failure rate) driven by concurrent putters, churn putters (repeated puts), readers (4 read APIs), a deleter that puts half of the deleted objects again, explicit flushes, mode switches RW<->RO/degraded-RO, blobstor fault windows, 2-3 restarts and (3 rounds of 4) a phase-aligned client that deletes objects right after a background batch was written and puts them again right before a later batch is written; plus 2 constructed rounds (delete + put again while a flush is held between blobstor write and cache clean-up); distinct = round with its recorded history; non-trivial = reads overlapping background flushes (cache hits and fall-backs both observed), objects re-created around flush batches")
 	r.Assume("puts issued while the shard is in a degraded (no-metabase) mode are not produced: docs/shard-modes.md declares writes in that mode unsupported")
 	r.Assume("restarts happen between client calls (the process is not killed mid-call here; see C15)")
 	h := verifkit.InstallHooks()
